@@ -48,6 +48,10 @@ pub const SCANNER_TEMPLATES: &[(&str, &str)] = &[
     ("%if ", " %then %put a;"),
     ("%do i=1 %to ", "; %end;"),
     ("%lbl", ": %put a;"),
+    // a label that needs a separator in the macro_sep build (it follows a token that is not ';'):
+    // whatever stands between the name and the ':' lies between the inserted token and its owner
+    ("x %lbl", ": %put a;"),
+    ("%m(x)\n%lbl", ":\n%put a;"),
     ("%copy a /", ";"),
     ("x=1", "e5;"),
 ];
